@@ -52,8 +52,16 @@ def rpath(p):
     return s
 
 
+RICH = False   # C12 switches this on: unicode, multi-line contents
+
+
 def content(c):
-    return b"" if c == 0 else ("# content %d\n" % c).encode()
+    if c == 0:
+        return b""
+    text = "# content %d\n" % c
+    if RICH and c % 2 == 1:
+        text += "s = 'h\u00e9llo \u20ac \U0001F600'\n\nlast = 1"
+    return text.encode("utf-8")
 
 
 def render_tree(root, pairs):
@@ -82,9 +90,11 @@ def abstract_tree(root):
             v = None
             if data == b"":
                 v = 0
-            elif data.startswith(b"# content ") and data.endswith(b"\n"):
+            elif data.startswith(b"# content "):
                 try:
-                    v = int(data[10:-1])
+                    v = int(data[10:data.index(b"\n")])
+                    if content(v) != data:
+                        v = None
                 except ValueError:
                     v = None
             out.append([names, v if v is not None else "?" + data.decode("latin-1")[:40]])
